@@ -124,3 +124,64 @@ func runAddrMgrCase(r *ev.Run, id string, i int) {
 	}
 	r.Case(fmt.Sprintf("am|addrs=%d|bans=%d", nAddr, len(banned)), len(banned) > 0)
 }
+
+// runAddrMgrScaleCase: the address book of a long-running node. More than two thousand addresses of one network group are
+// learnt, dialled and found good one after the other - more than the tried buckets of one group hold (8 x 256), so the
+// oldest tried entries are pushed back into the table of new addresses. Then all of them turn bad and are banned, and a
+// single good address of another group remains: GetAddress must hand that one out, every time, and return.
+func runAddrMgrScaleCase(r *ev.Run, id string, i int) {
+	if amWedged {
+		return
+	}
+	rng := r.Rand(id)
+	log := zerolog.Nop()
+	am := addrmgr.New(func(string) ([]net.IP, error) { return nil, fmt.Errorf("no dns") }, &log)
+	src := wire.NewNetAddressTimestamp(time.Now(), wire.SFNodeNetwork, net.IPv4(70, 1, 1, 1), 8333)
+	n := 2300 + rng.Intn(900)
+	b1 := byte(1 + rng.Intn(200))
+	var keys []string
+	for k := 0; k < n; k++ {
+		ip := net.IPv4(81, b1, byte(k/250), byte(1+k%250))
+		a := wire.NewNetAddressTimestamp(time.Now().Add(-time.Duration(1+rng.Intn(3000))*time.Second), wire.SFNodeNetwork, ip, 8333)
+		am.AddAddresses([]*wire.NetAddress{a}, src)
+		am.Attempt(a)
+		am.Good(a)
+		keys = append(keys, addrmgr.NetAddressKey(a))
+	}
+	for _, k := range keys {
+		am.BanAddress(k)
+	}
+	last := wire.NewNetAddressTimestamp(time.Now().Add(-time.Hour), wire.SFNodeNetwork, net.IPv4(90, byte(1+rng.Intn(200)), 3, 4), 8333)
+	am.AddAddresses([]*wire.NetAddress{last}, src)
+	am.Attempt(last)
+	am.Good(last)
+	want := addrmgr.NetAddressKey(last)
+	detail := map[string]any{"addresses_of_one_group_found_good_then_banned": n, "remaining_good_address": want}
+	for c := 0; c < 40; c++ {
+		ch := make(chan *addrmgr.KnownAddress, 1)
+		go func() { ch <- am.GetAddress() }()
+		var ka *addrmgr.KnownAddress
+		select {
+		case ka = <-ch:
+		case <-time.After(3 * time.Second):
+			select {
+			case ka = <-ch:
+			case <-time.After(25 * time.Second):
+				amWedged = true
+				r.Violate("addrmgr|after-tried-bucket-overflow|GetAddress-does-not-return", fmt.Sprintf("after %d addresses of one group had been found good (tried buckets overflowed) and banned, with one good address left, call %d of AddrManager.GetAddress did not return within 28 s (it spins under the address manager's lock)", n, c+1), id, detail)
+				return
+			}
+		}
+		r.Count("am_getaddress_calls", 1)
+		if ka == nil {
+			r.Violate("addrmgr|after-tried-bucket-overflow|no-address", "GetAddress returned nothing although one good, unbanned address is known", id, detail)
+			return
+		}
+		if got := addrmgr.NetAddressKey(ka.NetAddress()); got != want {
+			r.Violate("addrmgr|after-tried-bucket-overflow|banned-address-handed-out", fmt.Sprintf("GetAddress handed out %s, which was banned; the only unbanned address is %s", got, want), id, detail)
+			return
+		}
+	}
+	r.Count("am_books_with_overflowing_tried_buckets", 1)
+	r.Case("addrmgr|scale|overflow-then-ban", true)
+}
